@@ -1,7 +1,10 @@
 import VecModel.Lemmas.CoocSpec
+import VecModel.Lemmas.CoocNgram
+import VecModel.Lemmas.CoocMulti
 /-
   C03 — Co-occurrence matrices equal the windowed, kernel-weighted count definition.
-  Property theorems (helper lemmas live in Lemmas/Window.lean, Lemmas/Cooc.lean). Every theorem
+  Property theorems (helper lemmas live in Lemmas/Window.lean, Cooc.lean, CoocSpec.lean, CoocOcc.lean,
+  CoocNgram.lean, CoocMulti.lean). Every theorem
   here is an obligation of the C03 check; see DESIGN.md §5 C03.
 -/
 set_option linter.unusedSimpArgs false
@@ -426,6 +429,219 @@ theorem fixedRadii_spec (w nf : Nat) (mask : Option Nat) :
       · have : ¬ (some m = some t) := by simpa using htm
         simp [radiusOf, List.getElem?_set, htm, this, List.getElem?_replicate, htl]
 
+/-! ### n-gram rows: the matrix is the definition -/
+
+/-- **ngram_events_eq_spec**: for every configuration (any blocks, radii tables, kernel weights,
+mask, offset, kernel normalisation, mix weights, window normalisation), every n-gram dictionary,
+every n-gram size `n ≥ 1` and every corpus (sequences shorter than `n` and empty ones included)
+each cell `(g, c)` of the matrix accumulated from the n-gram vectorizer's loops equals the
+position-based definition `specNgram`: the sum, over every position `k` at which a complete
+n-gram equal to the kept n-gram `g` starts, every block `w` and every position `j` whose token `x`
+has `x + w·n = c`, of `mix_w · kernel_w / total`, where the window of radius `ρ_w(g)` lies after the
+n-gram's last token `k + n - 1` ('after') or before its first token `k` ('before'). -/
+theorem ngram_events_eq_spec (cfg : Cfg) (nd : NgramDict) (nsize : Nat) (hn : 0 < nsize)
+    (S : List (List Nat)) (g c : Nat) :
+    cellSum (ngramEvents cfg nd nsize S) g c = specNgram cfg nd nsize S g c := by
+  unfold ngramEvents ngramOccs specNgram
+  rw [List.flatMap_assoc, cellSum_flatMap]
+  apply sumOver_congr
+  intro s _
+  rw [cellSum_filterMap_flatMap, sumOver_range]
+  have hle : s.length + 1 - nsize ≤ s.length := by omega
+  symm
+  rw [sumTo_tail_zero hle (by
+    intro k h1 h2
+    have : ¬ (k + nsize ≤ s.length) := by omega
+    simp [this])]
+  apply sumTo_congr
+  intro k hk
+  have hk' : k + nsize ≤ s.length := by omega
+  cases hl : nd.lookup ((s.drop k).take nsize) with
+  | none => simp
+  | some g' =>
+    simp only [Option.map_some, hk', true_and, Option.some.injEq]
+    rw [cellSum_ngramOcc cfg s nsize g' k hn hk' g c]
+    by_cases hg : g' = g
+    · subst hg; simp; rfl
+    · simp [hg]
+
+/-- with non-negative mix weights and base kernel weights nothing is filtered away -/
+theorem specNgram_eq_specNgramPlain (cfg : Cfg) (nd : NgramDict) (nsize : Nat) (hn : 0 < nsize)
+    (S : List (List Nat)) (g c : Nat)
+    (hmix : ∀ b ∈ cfg.blocks, 0 ≤ b.mix) (hw : ∀ b ∈ cfg.blocks, ∀ k dt, 0 ≤ b.w k dt) :
+    specNgram cfg nd nsize S g c = specNgramPlain cfg nd nsize S g c := by
+  unfold specNgram specNgramPlain
+  apply sumOver_congr
+  intro s _
+  apply sumTo_congr
+  intro k _
+  split
+  · rename_i hk
+    apply sumOver_congr
+    intro bw hbw
+    have hb : bw.1 ∈ cfg.blocks := (List.mem_zipIdx hbw).2.2 ▸ List.getElem_mem _
+    apply sumTo_congr
+    intro j _
+    cases s[j]? with
+    | none => rfl
+    | some ctx =>
+      simp only
+      split
+      · have h0 : 0 ≤ ngKer bw.1 s g (ngAnchor bw.1.rev k nsize) j / ngTotal cfg s nsize g k :=
+          div_nonneg (ngKer_nonneg bw.1 s g _ j (ngAnchor_lt hn hk.1) (hmix _ hb) (hw _ hb))
+            (le_of_lt (ngTotal_pos cfg s nsize g k))
+        unfold pos
+        split
+        · rfl
+        · rename_i hneg
+          exact (le_antisymm (not_lt.mp hneg) h0).symm
+      · rfl
+  · rfl
+
+/-- **the n-gram matrix is the definition** (non-negative weights): the plain sum of
+`mix · kernel / total` of the property text, no filter -/
+theorem ngram_events_eq_definition (cfg : Cfg) (nd : NgramDict) (nsize : Nat) (hn : 0 < nsize)
+    (S : List (List Nat)) (g c : Nat)
+    (hmix : ∀ b ∈ cfg.blocks, 0 ≤ b.mix) (hw : ∀ b ∈ cfg.blocks, ∀ k dt, 0 ≤ b.w k dt) :
+    cellSum (ngramEvents cfg nd nsize S) g c = specNgramPlain cfg nd nsize S g c := by
+  rw [ngram_events_eq_spec cfg nd nsize hn, specNgram_eq_specNgramPlain cfg nd nsize hn S g c hmix hw]
+
+/-- 1-grams whose row index is the token index are the token vectorizer: with `nd = [([t], t)]`
+for every token the n-gram definition is C03's token definition `spec` -/
+theorem specNgram_one_eq_spec (cfg : Cfg) (nd : NgramDict) (S : List (List Nat)) (g c : Nat)
+    (hnd : ∀ t, nd.lookup [t] = some t) :
+    specNgram cfg nd 1 S g c = spec cfg (untimed S) g c := by
+  unfold specNgram spec untimed
+  rw [sumOver_map]
+  apply sumOver_congr
+  intro s _
+  rw [List.length_map]
+  apply sumTo_congr
+  intro k hk
+  have hsk : s[k]? = some s[k] := List.getElem?_eq_getElem hk
+  have hdrop : (s.drop k).take 1 = [s[k]] := by
+    rw [List.drop_eq_getElem_cons hk]; rfl
+  have hk1 : k + 1 ≤ s.length := by omega
+  simp only [List.getElem?_map, hsk, Option.map_some, hdrop, hnd, hk1, true_and, Option.some.injEq]
+  by_cases hg : s[k] = g
+  · simp only [hg, if_true]
+    apply sumOver_congr
+    intro bw _
+    apply sumTo_congr
+    intro j hj
+    have hsj : s[j]? = some s[j] := List.getElem?_eq_getElem hj
+    simp only [hsj, Option.map_some]
+    have hanchor : ngAnchor bw.1.rev k 1 = k := by unfold ngAnchor; split <;> omega
+    have hker : ∀ (b : Block) (j : Nat), ngKer b s g k j =
+        posKer b (s.map fun t => (t, (0 : Rat))) k j := by
+      intro b j
+      rw [ngKer_eq_posKer b s g k j hk]
+      apply posKer_forRow
+      intro tgt ht
+      simp only [untimedSeq, List.getElem?_map, hsk, Option.map_some, Option.some.injEq] at ht
+      rw [← ht]; exact hg
+    have htot : ngTotal cfg s 1 g k = posTotal cfg (s.map fun t => (t, (0 : Rat))) k := by
+      unfold ngTotal posTotal
+      simp only [List.length_map]
+      have : (sumOver cfg.blocks fun b => sumTo s.length fun j => ngKer b s g (ngAnchor b.rev k 1) j) =
+          sumOver cfg.blocks fun b => sumTo s.length fun j =>
+            posKer b (s.map fun t => (t, (0 : Rat))) k j := by
+        apply sumOver_congr
+        intro b _
+        apply sumTo_congr
+        intro j _
+        have : ngAnchor b.rev k 1 = k := by unfold ngAnchor; split <;> omega
+        rw [this, hker]
+      rw [this]
+    rw [hanchor, hker, htot]
+  · simp [hg]
+
+/-! ### multisets: the matrix is the definition -/
+
+/-- **the multiset generator is total**: for every configuration and every corpus of documents
+(empty documents and empty multisets included) `multiEvents` returns a matrix — the only checked
+access of the model (`kernel_result[target_ind] = 0`, an IndexError / silent out-of-bounds write in
+the code if it failed) always lands inside the target's own multiset, which is first in its window. -/
+theorem multi_events_total (cfg : Cfg) (mask : Option Nat) (docs : List (List (List Nat))) :
+    ∃ es, multiEvents cfg mask docs = .ok es := by
+  unfold multiEvents
+  rw [multiOccs_eq]
+  exact ⟨_, rfl⟩
+
+/-- **multi_events_eq_spec**: for every configuration (any blocks, radii tables, kernel weights,
+mask, offset, kernel normalisation, mix weights, window normalisation) and every corpus each cell
+`(r, c)` of the matrix accumulated from the multiset vectorizer's loops equals the position-based
+definition `specMulti`: the sum, over every position `(d, w)` (entry `w` of multiset `d` of a
+document) holding the row token `r`, every block `k` and every position `(e, v) ≠ (d, w)` of the
+same document whose multiset `e` lies within `ρ_k(r)` multisets after (before) `d`, `d` itself
+included, and whose token `x` has `x + k·n = c`, of `mix_k · kernel_k / total`; the kernel weight of
+a multiset at distance `m` is `0` for `m < offset` and `w (m - offset)` otherwise; the row of the
+nullified mask token is empty. -/
+theorem multi_events_eq_spec (cfg : Cfg) (mask : Option Nat) (docs : List (List (List Nat)))
+    (es : List Event) (h : multiEvents cfg mask docs = .ok es) (r c : Nat) :
+    cellSum es r c = specMulti cfg mask docs r c := by
+  unfold multiEvents at h
+  rw [multiOccs_eq] at h
+  simp only [bind, Except.bind, pure, Except.pure, Except.ok.injEq] at h
+  subst h
+  rw [cellSum_clearRow]
+  unfold specMulti
+  by_cases hm : mask = some r
+  · simp [hm]
+  · simp only [hm, if_false]
+    rw [List.flatMap_map, cellSum_flatMap]
+    unfold multiTargets sumDoc
+    rw [sumOver_flatMap]
+    apply sumOver_congr
+    intro doc _
+    rw [sumOver_flatMap]
+    apply sumOver_congr
+    intro md hmd
+    rw [sumOver_map]
+    apply sumOver_congr
+    intro tw _
+    have h1 : doc[md.2]? = some md.1 := List.mem_zipIdx_iff_getElem?.mp hmd
+    have hown : ownMset (doc, md.2, tw.2, tw.1) = md.1 := by simp [ownMset, h1]
+    simp only [hown]
+    exact cellSum_multiOcc cfg doc md.2 tw.2 tw.1 md.1 h1 r c
+
+/-- with non-negative mix weights and base kernel weights nothing is filtered away -/
+theorem specMulti_eq_specMultiPlain (cfg : Cfg) (mask : Option Nat) (docs : List (List (List Nat)))
+    (r c : Nat) (hmix : ∀ b ∈ cfg.blocks, 0 ≤ b.mix) (hw : ∀ b ∈ cfg.blocks, ∀ k dt, 0 ≤ b.w k dt) :
+    specMulti cfg mask docs r c = specMultiPlain cfg mask docs r c := by
+  unfold specMulti specMultiPlain
+  split
+  · rfl
+  · apply sumOver_congr
+    intro doc _
+    apply sumDoc_congr
+    intro tgt d w
+    split
+    · apply sumOver_congr
+      intro bw hbw
+      have hb : bw.1 ∈ cfg.blocks := (List.mem_zipIdx hbw).2.2 ▸ List.getElem_mem _
+      apply sumDoc_congr
+      intro ctx e v
+      split
+      · have h0 : 0 ≤ mKer bw.1 doc tgt d w ctx e v / mTotal cfg doc tgt d w :=
+          div_nonneg (mKer_nonneg bw.1 doc tgt d w ctx e v (hmix _ hb) (hw _ hb))
+            (le_of_lt (mTotal_pos cfg doc tgt d w))
+        unfold pos
+        split
+        · rfl
+        · rename_i hneg
+          exact (le_antisymm (not_lt.mp hneg) h0).symm
+      · rfl
+    · rfl
+
+/-- **the multiset matrix is the definition** (non-negative weights): the plain sum of
+`mix · kernel / total` of the property text, no filter -/
+theorem multi_events_eq_definition (cfg : Cfg) (mask : Option Nat) (docs : List (List (List Nat)))
+    (es : List Event) (h : multiEvents cfg mask docs = .ok es) (r c : Nat)
+    (hmix : ∀ b ∈ cfg.blocks, 0 ≤ b.mix) (hw : ∀ b ∈ cfg.blocks, ∀ k dt, 0 ≤ b.w k dt) :
+    cellSum es r c = specMultiPlain cfg mask docs r c := by
+  rw [multi_events_eq_spec cfg mask docs es h, specMulti_eq_specMultiPlain cfg mask docs r c hmix hw]
+
 /-! ### Non-vacuity
 
 Two sequences (one empty) over {0, 1, 2}, a directional window of radius 2 (before = block 0,
@@ -479,5 +695,72 @@ example : cellSum (seqEvents exCfg exS) 0 (1 + 0 * exCfg.n) =
     rfl rfl rfl rfl (fun t _ => by simp [exBlock]) (fun t _ => by simp [exBlock]) hbelow 0 1
     (by decide) (by decide)
 
+
+/-! #### n-gram and multiset definitions: non-vacuity
+
+2-grams `ab, bc, ca` (rows 0, 1, 2) over `[a b c a b], [a], []` (a sequence shorter than `n` and an
+empty one), directional harmonic window of radius 2 (before = block 0, after = block 1): the 'after'
+window of `ab` at position 0 starts behind `b` (cells `(0, c+3) = 1`, `(0, a+3) = 1/2`), the 'before'
+window of `ca` at position 2 ends in front of `c` (cells `(2, b) = 1`, `(2, a) = 1/2`); 3-grams with
+window normalisation; the generator and the definition agree and are not zero. -/
+
+def exNd : NgramDict := [([0, 1], 0), ([1, 2], 1), ([2, 0], 2)]
+
+example :
+    cellSum (ngramEvents exCfg exNd 2 [[0, 1, 2, 0, 1], [0], []]) 0 5 = 1 ∧
+    specNgram exCfg exNd 2 [[0, 1, 2, 0, 1], [0], []] 0 5 = 1 ∧
+    specNgram exCfg exNd 2 [[0, 1, 2, 0, 1], [0], []] 0 3 = 1 / 2 ∧
+    cellSum (ngramEvents exCfg exNd 2 [[0, 1, 2, 0, 1], [0], []]) 2 1 = 1 ∧
+    specNgram exCfg exNd 2 [[0, 1, 2, 0, 1], [0], []] 2 1 = 1 ∧
+    specNgram exCfg exNd 2 [[0, 1, 2, 0, 1], [0], []] 2 0 = 1 / 2 ∧
+    specNgramPlain exCfg exNd 2 [[0, 1, 2, 0, 1], [0], []] 2 0 = 1 / 2 ∧
+    ngramEvents exCfg exNd 2 [[0], []] = [] ∧
+    specNgram exCfg exNd 2 [[0], []] 0 5 = 0 ∧
+    cellSum (ngramEvents { exCfg with normWin := true } [([0, 1, 2], 0), ([1, 2, 0], 1)] 3
+      [[0, 1, 2, 0, 1, 2], [0, 1]]) 1 0 = 2 / 5 ∧
+    specNgram { exCfg with normWin := true } [([0, 1, 2], 0), ([1, 2, 0], 1)] 3
+      [[0, 1, 2, 0, 1, 2], [0, 1]] 1 0 = 2 / 5 := by
+  refine ⟨by decide +kernel, by decide +kernel, by decide +kernel, by decide +kernel,
+    by decide +kernel, by decide +kernel, by decide +kernel, by decide +kernel, by decide +kernel,
+    by decide +kernel, by decide +kernel⟩
+
+/-- the hypotheses of `ngram_events_eq_definition` / `specNgram_one_eq_spec` are satisfiable -/
+example : (∀ b ∈ exCfg.blocks, 0 ≤ b.mix) ∧ (0 < 2) ∧
+    (∀ t, ([([0], 0), ([1], 1), ([2], 2)] : NgramDict).lookup [t] = some t ∨ 3 ≤ t) := by
+  refine ⟨?_, by decide, ?_⟩
+  · intro b hb
+    simp only [exCfg, List.mem_cons, List.not_mem_nil, or_false] at hb
+    rcases hb with rfl | rfl <;> simp [exBlock]
+  · intro t
+    match t with
+    | 0 | 1 | 2 => left; rfl
+    | t + 3 => right; omega
+
+/-- Multisets: documents `[{a,b},{c},{a,a}]`, `[{b},{},{c,a}]`, `[]`; `c` (index 2) is the nullified
+mask (radius 0, kernel weight 0, row cleared); block 0 = 'before' radius 2 flat, block 1 = 'after'
+radius 2 flat with `offset = 1` (the target's own multiset is skipped). The generator is total,
+agrees with the definition, the cells are not zero and the mask row is empty. -/
+def exMBlock (rev : Bool) (offset : Nat) : Block :=
+  { rev := rev, mix := 1, args := { mask := some 2, offset := offset },
+    radius := fun t => if t = 2 then 0 else 2, w := fun _ _ => 1 }
+
+def exMCfg : Cfg := { n := 3, blocks := [exMBlock true 0, exMBlock false 1], normWin := false }
+
+def exDocs : List (List (List Nat)) := [[[0, 1], [2], [0, 0]], [[1], [], [2, 0]], []]
+
+example :
+    (multiEvents exMCfg (some 2) exDocs).toOption.map (fun es => cellSum es 0 0) = some 4 ∧
+    specMulti exMCfg (some 2) exDocs 0 0 = 4 ∧
+    (multiEvents exMCfg (some 2) exDocs).toOption.map (fun es => cellSum es 0 3) = some 2 ∧
+    specMulti exMCfg (some 2) exDocs 0 3 = 2 ∧
+    (multiEvents exMCfg (some 2) exDocs).toOption.map (fun es => cellSum es 1 3) = some 3 ∧
+    specMulti exMCfg (some 2) exDocs 1 3 = 3 ∧
+    specMultiPlain exMCfg (some 2) exDocs 1 3 = 3 ∧
+    (multiEvents exMCfg (some 2) exDocs).toOption.map (fun es => cellSum es 2 0) = some 0 ∧
+    specMulti exMCfg (some 2) exDocs 2 0 = 0 ∧
+    specMulti exMCfg none exDocs 2 0 ≠ 0 := by
+  refine ⟨by decide +kernel, by decide +kernel, by decide +kernel, by decide +kernel,
+    by decide +kernel, by decide +kernel, by decide +kernel, by decide +kernel, by decide +kernel,
+    by decide +kernel⟩
 
 end VecModel.Cooc
